@@ -402,6 +402,14 @@ class BGMM(GMM):
         if self.precisions is not None:
             self._detp = [detsh(self.precisions[k]) for k in range(self.k)]
 
+    def plugin(self, means, precisions, weights):
+        """
+        Set manually the weights, means and precision of the model
+        (and refresh the cached determinants of the precisions)
+        """
+        GMM.plugin(self, means, precisions, weights)
+        self._detp = [detsh(self.precisions[k]) for k in range(self.k)]
+
     def check(self):
         """
         Checking the shape of sifferent matrices involved in the model
